@@ -156,6 +156,36 @@ def names_in_place_of_nodes(M, rec):
                         rec.violation(f"{PROP}:add_path: a path rejected at its first element changed the network", {"position": pos})
 
 
+def value_equal_replacements(M, rec):
+    """Scripted in every run: an origin / destination kind with value equality (equal names, distinct objects): attaching the
+    second one where the first sits replaces it - through add_origin / add_destination and through add_path."""
+    from vf import userkinds as UK
+
+    mkl = lambda: M.Link(2, 2, 1.0, 180.0, 33.0, 100.0, 1.8)  # noqa: E731
+    for via in ("single", "path"):
+        a, b, c = M.Node(name="A"), M.Node(name="B"), M.Node(name="C")
+        l1, l2 = mkl(), mkl()
+        net = M.Network().add_path((a, l1, b, l2, c))
+        o1, o2 = UK.NamedRamp(900.0, name="R"), UK.NamedRamp(2000.0, name="R")
+        d1, d2 = UK.NamedDestination(name="D"), UK.NamedDestination(name="D")
+        st = netmon.graph_state(net)
+        steps = [("add_origin", o1, a), ("add_destination", d1, c), ("add_origin", o2, a), ("add_destination", d2, c), ("add_origin", o1, a)] if via == "single" else None
+        if via == "single":
+            for op in steps:
+                getattr(net, op[0])(op[1], op[2])
+                st = netmon.model_apply(st, op)
+                rec.count("value_equal_replacements")
+                if not netmon.compare_state(rec, PROP, netmon.graph_state(net), st, (op[0] + " of an element equal to (but not) the one attached there",)):
+                    break
+        else:
+            for o_, d_ in ((o1, d1), (o2, d2), (o1, d2)):
+                net.add_path((a, l1, b, l2, c), origin=o_, destination=d_)
+                st = netmon.model_apply(st, ("add_path", [a, l1, b, l2, c], o_, d_))
+                rec.count("value_equal_replacements")
+                if not netmon.compare_state(rec, PROP, netmon.graph_state(net), st, ("add_path with an origin / destination equal to (but not) the one attached there",)):
+                    break
+
+
 def histories(M, rec, rng, reps):
     for _ in range(reps):
         N = [M.Node() for _ in range(rng.randint(2, 5))]
@@ -178,6 +208,14 @@ def histories(M, rec, rng, reps):
             O.append(clone(rng.choice(O)))
             Dd.append(clone(rng.choice(Dd)))
             rec.count("histories_with_cloned_objects")
+        if rng.random() < 0.3:
+            # element kinds with value equality: equal-but-distinct objects (a fresh ramp of the same name per candidate
+            # capacity) - attaching one where an equal one sits replaces it like any other
+            from vf import userkinds as UK
+
+            O += [UK.NamedRamp(900.0, name="R"), UK.NamedRamp(2000.0, name="R")]
+            Dd += [UK.NamedDestination(name="D"), UK.NamedDestination(name="D")]
+            rec.count("histories_with_value_equal_elements")
         net = M.Network()
         st = netmon.graph_state(net)
         hist = []
@@ -365,6 +403,7 @@ def run(M, rec, tier, seed, k, n):
     maxlen = 6 if tier == "quick" else 8
     rec.extra["path_shapes_exhaustive_up_to_length"] = maxlen
     names_in_place_of_nodes(M, rec)
+    value_equal_replacements(M, rec)
     path_shapes(M, rec, rng, maxlen, k, n)
     histories(M, rec, rng, 600 if tier == "quick" else 12000)
     if k == 0:
